@@ -5,19 +5,19 @@ META = {
     'category': 'proof',
     'technique': 'Coq theorems over an executable model of for_each_n (thread count, chunk offsets from the staticChunkSize regenerated from the C++ '
                  'source, runner of each chunk) + correspondence: the real for_each_n template driven by an instrumented task set (per element: '
-                 'application count and runner, compared with the model inside Coq) and by the real ThreadPool; the crashing corner is run in child '
-                 'processes (assert build and NDEBUG build)',
-    'text': 'C15_foreach_once: whenever the call returns every element of [0,n) is visited by exactly one chunk and nothing else is (offsets form a '
-            'contiguous partition, reusing foreach_bounds_contiguous).  C15_refuted: zero-thread pool, wait=false, n>0, maxThreads!=0 gives '
-            'numThreads = 0 and staticChunkSize(n,0) divides by zero; C15_domain_exact: the call fails to return exactly on c15_dom; '
-            'C15_holds_except: on the complement every element is visited exactly once; C15_nothing_deferred: every application is made by a '
-            'scheduled closure or by the caller before tasks.wait().',
+                 'application count and runner, compared with the model inside Coq) and by the real ThreadPool; the formerly crashing corner is run '
+                 'in child processes (assert build and NDEBUG build)',
+    'text': 'C15_foreach_once: for every n, pool size (zero-thread pools included), maxThreads and wait mode every element of [0,n) is visited by '
+            'exactly one chunk and nothing else is (offsets form a contiguous partition, reusing foreach_bounds_contiguous); C15_thread_count: the '
+            'chunk count given to staticChunkSize is in [1, max(1,maxThreads)]; C15_nothing_deferred: every application is made by a scheduled closure '
+            'or by the caller before tasks.wait().  The model describes the code after the repair of foreach-zero-threads-nowait-div0 (numThreads '
+            'clamped to >= 1); the former witness is a regression Example and is replayed first on every run (assert build and NDEBUG build).',
     'note': 'Trusted: Coq kernel; tools/translate.py + clang AST (staticChunkSize); the thread-count lines and the offset formulas of for_each.h are '
             'hand-modelled in Model/ForEachModel.v and tied by the correspondence; harness/h_loops.cpp, harness/h_parfor.cpp.  Print Assumptions: closed.',
 }
 
 ASSUMPTIONS = [
-    'n < 2^63 and pool size >= 0; the function does not throw; the task set is not cancelled',
+    'n < 2^63; the function does not throw; the task set is not cancelled',
     'completion ("all applications have finished when the call / wait() returns") relies on the task set contract C01/C02: scheduled closures run '
     'exactly once before taskSet.wait() returns',
     'the cumulative boundary computation used for non-random-access iterators is tied to the model by the differential run only (bidirectional and '
@@ -25,7 +25,6 @@ ASSUMPTIONS = [
     'nested use (inside a parallel_for/for_each body of the same pool) takes the serial branch, which is the FSerial path of the model',
 ]
 
-KEY = 'foreach-zero-threads-nowait-div0'
 IMPORTS = 'From DV Require Import Base.MachInt Base.Corr Model.ChunkModel Gen.GenChunk Model.ParForModel Model.PlanModel Model.ForEachModel Model.C15Check.'
 
 
@@ -50,8 +49,6 @@ def gen_fe(ctx, n, cats):
         maxT = r.choice([0, 1, 2, 3, N, N + 1, N + 2, (1 << 31) - 1, 1 << 31, (1 << 32) - 1, 1 << 32 if False else 5])
         nn = r.choice([0, 1, 2, N, N + 1, N + 2, r.randint(0, 40), r.randint(0, 90)])
         c = {'cat': r.choice(cats), 'n': nn, 'N': N, 'maxT': maxT, 'wait': r.choice([0, 1])}
-        if in_dom(c) and sum(1 for x in out if in_dom(x)) >= 24:
-            c['wait'] = 1                       # every crashing case costs a process restart: keep their number bounded
         out.append(c)
     return out
 
@@ -64,19 +61,22 @@ def run(ctx):
     ctx.phase('translate')
     ctx.prove(models=['Model/C15Check.v', 'Base/Corr.v'])
 
-    real = pf_common.harness()
     mock = plan_common.loops_harness()
     mock_nd = dv.build_harness('h_loops_nd', ['h_loops.cpp'], extra_flags=['-DNDEBUG'])
+    real = pf_common.harness()          # shared with other checks (rebuilt, old binary deleted, when the tree hash differs): build it last
 
-    # ---- deterministic witness of the known finding, in child processes: real pool (assert build), NDEBUG build
+    # ---- regression: the witness of the repaired finding foreach-zero-threads-nowait-div0, in child processes:
+    #      real pool (assert build), instrumented task set in the NDEBUG build (where the defect was a SIGFPE)
     wl = 'fe ra 5 0 3 0'
     rc1, out1 = dv.sh([real], inp=wl + '\n', timeout=60)
     rc2, out2 = dv.sh([mock_nd], inp='feplan ra 5 0 3 0 0\n', timeout=60)
-    ctx.cov['witness_zero_threads_nowait'] = {'assert_build': {'rc': rc1, 'out': out1[-160:]}, 'ndebug_build': {'rc': rc2, 'out': out2[-160:]}}
-    if rc1 != 0 or rc2 != 0 or not re.search(r'^fe 1 1 1 1 1 ', out1, re.M):
-        ctx.violation('for_each_n(n=5, zero-thread pool, maxThreads=3, wait=false) does not return: exit status %d (assert build: %s), %d (NDEBUG '
-                      'build, -8 = SIGFPE); no element visited' % (rc1, 'assert(chunks > 0)' if 'chunks > 0' in out1 else out1[-80:], rc2),
-                      {'finding_key': KEY, 'cmd': 'echo "%s" | build/harness/h_parfor-*' % wl})
+    ctx.cov['regression_zero_threads_nowait'] = {'assert_build': {'rc': rc1, 'out': out1[-160:]}, 'ndebug_build': {'rc': rc2, 'out': out2[-160:]}}
+    ok1 = rc1 == 0 and re.search(r'^fe 1 1 1 1 1 \|', out1, re.M)
+    ok2 = rc2 == 0 and re.search(r'^feplan 5\s+1 0 1 0 1 0 1 0 1 0 \| nsched 1 nwaits 0', out2, re.M)
+    if not (ok1 and ok2):
+        ctx.violation('for_each_n(n=5, zero-thread pool, maxThreads=3, wait=false) does not apply the function once per element: exit status %d '
+                      '(assert build: %s), %d (NDEBUG build, -8 = SIGFPE: %s)' % (rc1, out1[-120:].strip(), rc2, out2[-120:].strip()),
+                      {'cmd': 'echo "%s" | build/harness/h_parfor-*' % wl, 'case': {'cat': 'ra', 'n': 5, 'N': 0, 'maxT': 3, 'wait': 0}})
     ctx.phase('witness')
 
     nreal = 230 if ctx.quick else 6000
@@ -87,7 +87,7 @@ def run(ctx):
         c['exec'] = ctx.rng.choice([0, 1, 2, 3]) if c['N'] <= 8 else 0
     oreal = plan_common.run_lines(real, ['fe %s %d %d %d %d' % (c['cat'], c['n'], c['N'], c['maxT'], c['wait']) for c in creal])
     omock = plan_common.run_lines(mock, ['feplan %s %d %d %d %d %d' % (c['cat'], c['n'], c['N'], c['maxT'], c['wait'], c['exec']) for c in cmock])
-    # the crashing domain once more under NDEBUG (division by zero instead of the assertion)
+    # the formerly crashing domain once more under NDEBUG (it was a division by zero there instead of the assertion)
     cnd = [c for c in cmock if in_dom(c)][:12]
     ond = plan_common.run_lines(mock_nd, ['feplan %s %d %d %d %d %d' % (c['cat'], c['n'], c['N'], c['maxT'], c['wait'], c['exec']) for c in cnd])
     ctx.phase('run')
@@ -110,35 +110,31 @@ def run(ctx):
                                                   dv.coq_list(['(%d,%s)' % (a, dv.zlit(b)) for a, b in pairs]), ns, nw))
     res = plan_common.judge(ctx, 'c15', IMPORTS, [('judge_fe15', t_real), ('judge_feplan15', t_mock)])
     ctx.cov['rule'] = ('for_each_n over iterator categories {random access, bidirectional, forward} x n (0..300, around the pool size) x pool size 0..7 x '
-                       'maxThreads (0, 1, around the pool size, 2^31-1, 2^31, 2^32-1) x wait, exhaustive for N<=2, maxThreads<=3, n in {0,1,2,3,5}; real pool '
+                       'maxThreads (0, 1, around the pool size, 2^31-1, 2^31, 2^32-1) x wait (zero-thread pools with wait=false included), exhaustive for N<=2, maxThreads<=3, n in {0,1,2,3,5}; real pool '
                        '(counts) and instrumented task set (count + runner per element, closures scheduled, waits).  Non-trivial = n >= 2 and more than one '
                        'chunk possible (N + wait >= 2, maxThreads >= 2); distinct = distinct inputs')
     ctx.cov['evaluations'] += len(t_real) + len(t_mock) + 2
     if res is None:
         ctx.broken.append('correspondence D(C15): the model no longer evaluates (see coq_eval_errors)')
         return
-    hist = {'agree_and_property_holds': 0, 'differs_but_property_holds': 0, 'property_fails_in_known_domain': 0, 'property_fails': 0}
+    hist = {'agree_and_property_holds': 0, 'differs_but_property_holds': 0, 'property_fails': 0,
+            'zero_thread_nowait_cases(former finding domain)': sum(1 for c in creal + cmock + cnd if in_dom(c))}
     distinct = set()
     allc = [('fe', c, o) for c, o in zip(creal, oreal)] + [('feplan', c, o) for c, o in zip(cmock, omock)] + [('feplan-ndebug', c, o) for c, o in zip(cnd, ond)]
     for (kind, c, o), v in zip(allc, res[0] + res[1]):
-        verdict, dom = v // 10, v % 10
         if c['n'] >= 2 and c['N'] + c['wait'] >= 2 and 2 <= c['maxT'] < (1 << 31):
             distinct.add((kind,) + tuple(sorted(c.items())))
         line = '%s %s %d %d %d %d' % ('fe' if kind == 'fe' else 'feplan', c['cat'], c['n'], c['N'], c['maxT'], c['wait']) + ('' if kind == 'fe' else ' %d' % c['exec'])
-        if verdict == 0:
+        if v == 0:
             hist['agree_and_property_holds'] += 1
-        elif verdict == 1:
+        elif v == 1:
             hist['differs_but_property_holds'] += 1
             ctx.broken.append('correspondence D(C15): implementation differs from the for_each model on "%s": %s' % (line, str(o)[:300]))
         else:
-            rep = {'case': c, 'cmd': line, 'harness': 'h_parfor' if kind == 'fe' else 'h_loops' + ('_nd (-DNDEBUG)' if kind.endswith('ndebug') else ''),
-                   'observed': str(o)[:300]}
-            if dom == 1:
-                hist['property_fails_in_known_domain'] += 1
-                rep['finding_key'] = KEY
-            else:
-                hist['property_fails'] += 1
-            ctx.violation('for_each_n did not apply the function exactly once to each of the first n elements (or did not return): %s -> %s' % (line, str(o)[:200]), rep)
+            hist['property_fails'] += 1
+            ctx.violation('for_each_n did not apply the function exactly once to each of the first n elements (or did not return): %s -> %s' % (line, str(o)[:200]),
+                          {'case': c, 'cmd': line, 'harness': 'h_parfor' if kind == 'fe' else 'h_loops' + ('_nd (-DNDEBUG)' if kind.endswith('ndebug') else ''),
+                           'observed': str(o)[:300]})
     ctx.cov['distinct_nontrivial'] += len(distinct)
     ctx.cov['verdict_histogram'] = hist
     ctx.cov['traces_validated_against_impl'] += hist['agree_and_property_holds']
